@@ -74,6 +74,10 @@ structure St where
 /-- state right after `boot()`: the thread exists and is at the top of the recursion -/
 def St.boot : St := {}
 
+/-- state after a `boot()` that could not create the thread (it returns false): there is no
+filtering thread, `wait()` finds nothing to join and returns -/
+def St.bootFailed : St := { pc := .done }
+
 inductive Cmd | run | reset | reboot | teardown | wait
   deriving DecidableEq, Repr, Inhabited
 
